@@ -10,6 +10,7 @@ import (
 
 	"pgregory.net/rapid"
 
+	"verif/harness/api"
 	"verif/harness/gen"
 	"verif/harness/guard"
 	"verif/harness/model"
@@ -78,6 +79,28 @@ func checkC06(c caseC06) (sig, msg string) {
 		alones[i] = contiguous(f)
 	}
 	want := 0
+	gots := make([]readResult, 0, len(c.Frames))
+	defer func() {
+		// a second look at every packet the calls returned, after the whole
+		// stream was read: what a call returned is settled by its own frame
+		if sig != "" {
+			return
+		}
+		for i, g := range gots {
+			if !g.OK || g.P == nil {
+				continue
+			}
+			var now model.Packet
+			if pan := guard.Call(func() { now = api.Observe(g.P) }); pan != nil {
+				sig, msg = "panic", fmt.Sprintf("accessors of the packet returned by call %d panicked after the rest of the stream was read: %v", i, pan.Value)
+				return
+			}
+			if d := model.Diff(now, g.Obs); d != "" {
+				sig, msg = "earlier-result-changed", fmt.Sprintf("the packet returned by call %d (frame %s) changed while later frames of the stream were read: %s", i, hx(c.Frames[i]), d)
+				return
+			}
+		}
+	}()
 	for i, f := range c.Frames {
 		total := len(f)
 		alone := alones[i]
@@ -100,6 +123,7 @@ func checkC06(c caseC06) (sig, msg string) {
 			})
 		}
 		want += total
+		gots = append(gots, got)
 		if got.Panic != nil {
 			return "panic", fmt.Sprintf("call %d panicked: %v", i, got.Panic.Value)
 		}
